@@ -880,14 +880,43 @@ theorem map_ok_inv {α β} (f : α → β) (x : Except Err α) (b : β) (h : f <
   | error e => simp [Functor.map, Except.map] at h
   | ok a => simp [Functor.map, Except.map] at h; exact ⟨a, rfl, h⟩
 
-theorem specLeft_shaped (op : BinOp) (a : Const) (d d' : DVal) (hd : d.Shaped) (h : specLeft op a d = .ok d') :
+theorem scaleRows_shaped (cs : Vec) (J : Mat) (m : Nat) (hJ : ∀ row ∈ J, row.length = m) :
+    ∀ row ∈ scaleRows cs J, row.length = m := by
+  induction cs generalizing J with
+  | nil => intro row h; simp [scaleRows] at h
+  | cons c cs ih =>
+    cases J with
+    | nil => intro row h; simp [scaleRows] at h
+    | cons r J =>
+      intro row h
+      simp only [scaleRows, List.zipWith_cons_cons, List.mem_cons] at h
+      rcases h with rfl | h
+      · simpa using hJ r List.mem_cons_self
+      · exact ih J (fun row' h' => hJ row' (List.mem_cons_of_mem _ h')) row h
+
+theorem divAd_shaped (s : Rat) (v : Vec) (m : Nat) (J : Mat) (d' : DVal) (hJ : ∀ row ∈ J, row.length = m)
+    (h : divAd s v m J = .ok d') : d'.Shaped := by
+  unfold divAd at h
+  split at h
+  · cases h
+  · cases h; exact scaleRows_shaped _ J m hJ
+
+theorem powAd_shaped (s L : Rat) (v : Vec) (m : Nat) (J : Mat) (d' : DVal) (hJ : ∀ row ∈ J, row.length = m)
+    (h : powAd s L v m J = .ok d') : d'.Shaped := by
+  unfold powAd at h
+  split at h
+  · cases h
+  · cases h; exact scaleRows_shaped _ J m hJ
+
+theorem specLeft₀_shaped (op : BinOp) (a : Const) (d d' : DVal) (hd : d.Shaped) (h : specLeft₀ op a d = .ok d') :
     d'.Shaped := by
-  unfold specLeft at h
+  unfold specLeft₀ at h
   split at h
   all_goals try (cases h; done)
   all_goals try (obtain ⟨_, _, rfl⟩ := map_ok_inv _ _ _ h; trivial)
   all_goals try (split at h <;> cases h <;> first | trivial | exact matMul_row_length _ _ _)
   all_goals first
+    | (exact divAd_shaped _ _ _ _ _ hd h)
     | (cases h; exact hd)
     | (cases h
        intro row hrow
@@ -901,6 +930,14 @@ theorem specLeft_shaped (op : BinOp) (a : Const) (d d' : DVal) (hd : d.Shaped) (
     | (split at h
        · cases h
        · obtain ⟨_, _, rfl⟩ := map_ok_inv _ _ _ h; trivial)
+
+theorem specLeft_shaped (op : BinOp) (a : Const) (d d' : DVal) (hd : d.Shaped) (h : specLeft op a d = .ok d') :
+    d'.Shaped := by
+  unfold specLeft at h
+  split at h
+  · exact powAd_shaped _ _ _ _ _ _ hd h
+  · exact specLeft₀_shaped _ _ _ _ hd h
+  · exact specLeft₀_shaped _ _ _ _ hd h
 
 /-! ### sequences of pending steps -/
 
